@@ -9,7 +9,11 @@
 #
 # Always exits 0; the status of every file and theorem is in build/stamp.json.
 # Needs only: bash >= 4.3, coreutils (sha256sum, date), grep, sed, awk, and `lean` (+ Mathlib on lean's
-# default search path).  No python, no network.  Everything it writes is under build/.
+# default search path); no network.  python3 (standard library only) is needed for one step: the mechanical
+# statement check.  scripts/gen_statements.py re-translates the `//@ lemma` lines of the contract files into
+# Secp/GenSMT.lean and Secp/GenSMT2.lean (rewritten only if their content changes), which are then compiled like
+# every other file; stamp.json records the outcome under "mechanical_statement_check".  Without python3 everything
+# else still works and that key carries an "error".  Apart from those two files everything is written under build/.
 
 HERE="$(cd "$(dirname "${BASH_SOURCE[0]}")" && pwd)"
 SRC="$HERE/Secp"
@@ -139,6 +143,17 @@ jstr() { printf '"%s"' "$(printf '%s' "$1" | sed 's/\\/\\\\/g; s/"/\\"/g' | tr '
 LEANVER="$(lean --version 2>/dev/null | head -1)"
 HAVE_LEAN=1
 [ -n "$LEANVER" ] || { HAVE_LEAN=0; LEANVER="lean not found"; }
+
+# ---- mechanical statement check, step 1: regenerate Secp/GenSMT.lean and Secp/GenSMT2.lean -----------
+GEN="$HERE/scripts/gen_statements.py"
+HAVE_PY=0
+if command -v python3 >/dev/null 2>&1; then
+  HAVE_PY=1
+  python3 "$GEN" --quiet > "$B/logs/gen_statements.log" 2>&1 \
+    || echo "build.sh: gen_statements.py could not translate every lemma line, see build/logs/gen_statements.log" >&2
+else
+  echo "build.sh: python3 not found, Secp/GenSMT*.lean not regenerated, no mechanical statement check" >&2
+fi
 
 # ---- modules, local imports, content hashes ----------------------------------------------------------
 declare -A SHA DEPS KEY LEVEL OK SECS ERR CACHED CHK
@@ -287,6 +302,12 @@ TMP="$B/stamp.json.tmp"
   echo "  \"total_seconds\": $(elapsed "$T0" "$T1"),"
   asj=""; for a in $ASSUMED; do asj="$asj${asj:+, }\"$a\""; done
   echo "  \"assumed\": [$asj],"
+  # mechanical statement check, step 2: a lemma counts iff its `example` in Secp/GenSMT*.lean (which must be the
+  # generator's current output) compiled; for a module with errors the failed examples are read off its log
+  msc=""
+  ((HAVE_PY)) && msc="$(python3 "$GEN" --stamp "GenSMT=${OK[GenSMT]:-false}" "GenSMT2=${OK[GenSMT2]:-false}" 2>/dev/null | grep '^{' | tail -n 1)"
+  [ -n "$msc" ] || msc='{"lemmas": 0, "checked": 0, "failed": [], "error": "python3 not found or scripts/gen_statements.py failed"}'
+  echo "  \"mechanical_statement_check\": $msc,"
   echo "  \"files\": {"
   n=0
   for m in "${ORDER[@]}"; do
@@ -337,5 +358,6 @@ mv -f "$TMP" "$B/stamp.json"
 nf=0; nfo=0
 for m in "${ORDER[@]}"; do nf=$((nf+1)); [ "${OK[$m]}" = true ] && nfo=$((nfo+1)); done
 nt=$(grep -c '"file":' "$B/stamp.json"); nto=$(grep '"file":' "$B/stamp.json" | grep -c '"ok": true')
-echo "lemmas: $nfo/$nf files ok, $nto/$nt key theorems ok (standard axioms only), $(elapsed "$T0" "$(date +%s.%N)") s; stamp: $B/stamp.json" >&2
+msum="$(grep -m1 '"mechanical_statement_check"' "$B/stamp.json" | sed -E 's/.*"lemmas": ([0-9]+), "checked": ([0-9]+).*/\2\/\1/')"
+echo "lemmas: $nfo/$nf files ok, $nto/$nt key theorems ok (standard axioms only), $msum lemma statements mechanically checked, $(elapsed "$T0" "$(date +%s.%N)") s; stamp: $B/stamp.json" >&2
 exit 0
